@@ -147,6 +147,17 @@ impl Ctx {
         out
     }
 
+    /// One evaluation with `OutputVerification::Full` (the library's own AST re-check of its output).
+    pub fn eval_verified(&mut self, id: &str, src: &str, cfg: &Cfg, range: Range) -> Outcome {
+        self.note_progress(id, src, cfg, range);
+        self.case_clock.store(now_ms(), std::sync::atomic::Ordering::SeqCst);
+        let out = fmt::run(src, cfg, range, false, true);
+        self.case_clock.store(0, std::sync::atomic::Ordering::SeqCst);
+        self.evals += 1;
+        *self.counters.entry("evaluations_with_full_verification".to_string()).or_insert(0) += 1;
+        out
+    }
+
     /// One evaluation on a 2 MiB stack (the stack a CLI pool worker really has).
     pub fn eval_small_stack(&mut self, id: &str, src: &str, cfg: &Cfg, range: Range) -> Outcome {
         self.note_progress(id, src, cfg, range);
